@@ -43,7 +43,7 @@ MANIFEST = {
                   'TrialSuggestion construction to an allow-listed set of clipping decoders / '
                   'config-enumerating producers; clamp/snap check of the eagle value producers'
                   "; interprocedural return classification of parameter-building helpers; grid values: provenance of every returned list (decoder / exact enumeration / unclamped transcendental arithmetic); default seeding: every return is the validating builder's ParameterDict"
-                  '; finite-model interpretation (loop-free concrete interpreter over extracted function bodies) of the eagle value producers and of grid enumerations; literal-value designers must carry the BOOLEAN-only constructor guard'),
+                  '; finite-model interpretation (loop-free concrete interpreter over extracted function bodies) of the eagle value producers and of grid enumerations; literal-value designers must carry the BOOLEAN-only constructor guard; policy factory decided by a decision walk of __call__ per Algorithm member (every path returns a policy) and for an unknown name (every path raises)'),
     'level_text': (
         'Static: every value that can reach a suggestion passes a decoder that clips to the '
         'original bounds or selects a feasible value (or is enumerated from the config); designers '
